@@ -21,7 +21,11 @@ PROP = "C12"
 
 def printing_menu(cols, roles, depth, hist):
     items = menus.core_menu(cols, roles, depth, hist)
-    items += menus.cdata_items(cols, roles)
+    if {"g", "k", "v"} <= set(cols):
+        # a block-to-block record map (both sides set)
+        from mc.props import c11
+
+        items.append({"op": "convert_records", "map": c11.BLOCK_BLOCK_2})
     K, N = menus._pick(cols, roles)
     if K and "g" in cols and depth == 0:
         items.append({"op": "rename_columns", "map": {"g2": "g"}})
